@@ -224,7 +224,7 @@ bool snap_preserved(const Snap& a, const Snap& b) { if (a.kind != b.kind || a.ex
 // objects that keep a special value in the last column of the underlying row
 const char* special_column(const Constraint& x) { return x.is_strict_inequality() ? "strict-inequality" : 0; }
 const char* special_column(const Generator& x) { return x.is_closure_point() ? "closure-point" : 0; }
-const char* special_column(const Grid_Generator& x) { return x.is_parameter() ? "parameter" : 0; }
+const char* special_column(const Grid_Generator& x) { return x.is_parameter() ? "parameter" : "grid-generator-last-column"; }
 const char* special_column(const Congruence&) { return 0; }
 
 template <typename T> struct Pair { typename T::Obj d, s; Pair() : d(DENSE), s(SPARSE) {} };
@@ -271,9 +271,10 @@ template <typename T> void obj_history() {
         if (w == 1 && (dimension_type) D.n < dim) { bool td = (A.d.representation() == DENSE && r1 == SPARSE) || (A.s.representation() == DENSE && r2 == SPARSE);
           if (td && !coin((int) hx::opt().geti("truncds", 10))) { if (A.d.representation() == DENSE) r1 = DENSE; if (A.s.representation() == DENSE) r2 = DENSE; td = false; }
           if (td && !op.empty()) poison() = "truncating-dense-to-sparse"; }
+        if (!op.empty() && fragile && poison().empty()) poison() = std::string(sc) + "-special-column-misplaced";
         if (!op.empty()) { tr(pre + op + "[" + rs(r1) + rs(r2) + "]"); Snap before = snap(A.d); T::rand_rep_fixed = r1; T::special(w, A.d, D, true); T::rand_rep_fixed = r2; T::special(w, A.s, D, true);
           if (w <= 1) { checked(); Snap ad = snap(A.d), as = snap(A.s);
-            if (!snap_preserved(before, ad) || !snap_preserved(before, as)) { viol("C16.diff." + cn + "." + op.substr(0, op.find('(')) + (fragile ? std::string(":") + sc + "-special-column-misplaced" : ":value-not-preserved"), "copy to dimension " + std::to_string(D.n) + " does not preserve the public value: " + clip(sig(A.d), 300) + " / " + clip(sig(A.s), 300)); return; } } } }
+            if (!snap_preserved(before, ad) || !snap_preserved(before, as)) { viol("C16.diff." + cn + "." + op.substr(0, op.find('(')) + ":value-not-preserved", "copy to dimension " + std::to_string(D.n) + " does not preserve the public value: " + clip(sig(A.d), 300) + " / " + clip(sig(A.s), 300)); return; } } } }
       else if (kind < 12) { op = "set_representation"; Representation r1 = rand_rep(), r2 = rand_rep(); tr(pre + op + "(" + rs(r1) + rs(r2) + ")"); A.d.set_representation(r1); A.s.set_representation(r2); hx::count("obj.repr_flips"); }
       else if (kind < 13) { int how = rnd(0, 3); op = how == 0 ? "assign" : how == 1 ? "copy_repr" : how == 2 ? "m_swap" : "swap"; tr(pre + op + "(#" + std::to_string(b) + ")");
         if (how == 0) { A.d = coin() ? B.d : B.s; A.s = coin() ? B.d : B.s; }
